@@ -31,8 +31,9 @@ import (
 
 const (
 	prop         = "C10"
-	knownPendDel = "C10-pending-del-ignored"   // Add/Replace/Update of a persisted key after a Del in the same batch
-	knownUpdDel  = "C10-update-then-del-index" // Del of a persisted key whose pending update changed an indexed field
+	knownPendDel = "C10-pending-del-ignored"        // Add/Replace/Update of a persisted key after a Del in the same batch
+	knownUpdDel  = "C10-update-then-del-index"      // Del of a persisted key whose pending update changed an indexed field
+	knownJoinDel = "C10-join-del-left-update-right" // join: saved left row deleted and its right row's join field changed in one batch
 )
 
 func TestMain(m *testing.M) {
@@ -372,7 +373,9 @@ func (f *fixture) list(index string, value int64) string {
 	return fmt.Sprint(out)
 }
 
-func acc(p string, bal, fro int64) *types.Account { return &types.Account{Addr: p, Balance: bal, Frozen: fro} }
+func acc(p string, bal, fro int64) *types.Account {
+	return &types.Account{Addr: p, Balance: bal, Frozen: fro}
+}
 
 // TestKnown_DelThenAdd: p1 is saved, then deleted and re-added (or replaced) before the next save.
 func TestKnown_DelThenAdd(t *testing.T) {
